@@ -20,7 +20,7 @@ RULE = ('seeded worlds biased to channels absent from segments, multi-chunk segm
         '{None,+-1,+-2,+-3,0} and integer indices in [-len-2,len+1], each run on a lazily opened and an eagerly '
         'read handle and compared with numpy indexing on the full array. distinct = (segment shape sequence, '
         'cut class); non-trivial = at least one non-empty window compared')
-EXPECTED_PROBES = ['window-ends-in-multichunk-after-gap', 'window-in-truncated-last-chunk', 'empty-window-at-boundary',
+EXPECTED_PROBES = ['concurrent-readers', 'window-ends-in-multichunk-after-gap', 'window-in-truncated-last-chunk', 'empty-window-at-boundary',
                    'daqmx-window']
 
 
@@ -57,9 +57,13 @@ def generate(rng, tier):
     for r in reqs:
         if r['op'] == 'read_data' and w.chans[r['ch']].type == 'daqmx' and rng.random() < 0.5:
             r['scaled'] = False
+    threads = None
+    if reqs and rng.random() < 0.1:
+        threads = {'seed': rng.getrandbits(32), 'switch_p': rng.choice([0.05, 0.2, 0.5]),
+                   'ops': [dict(r) for r in rng.sample(reqs, min(len(reqs), rng.randint(2, 3)))]}
     return {'spec': spec, 'raw_ts': raw_ts, 'cut': cut, 'ops': reqs,
             'short_seed': rng.getrandbits(32) if rng.random() < 0.3 else None, 'debug_log': rng.random() < 0.05,
-            'memmap': rng.random() < 0.12}
+            'memmap': rng.random() < 0.12, 'threads': threads}
 
 
 def _sig(spec):
@@ -145,6 +149,10 @@ def execute(case):
                 res.ev(i, mode, exc or (digest(g) if g is not None else None))
             if len(res.violations) > 5:
                 break
+        if case.get('threads') and not res.violations:
+            # the eagerly read file is documented as safe to read from concurrently: the same requests from 2-3 threads,
+            # interleaved at line granularity inside nptdms by a seeded scheduler, must return what they return alone
+            res.violations += _lazy.concurrent_reads(case['threads'], eager, w, res, 'C04.concurrent')
         for (label, before, after) in keeper.mutated()[:3]:
             res.violations.append(V('C04.result-changed-later', 'the array returned by %s changed when later reads ran: was %s, now %s' % (
                 label, _lazy._short(before), _lazy._short(after))))
@@ -158,6 +166,13 @@ def execute(case):
 
 def shrink_candidates(case):
     from ..shrink import spec_candidates, list_candidates
+    if case.get('threads'):
+        c = dict(case)
+        c['threads'] = None
+        yield c
+        c = dict(case)
+        c['ops'] = []
+        yield c
     for ops_ in list_candidates(case['ops']):
         c = dict(case)
         c['ops'] = ops_
